@@ -112,3 +112,111 @@ Theorem c13_every_call_returns_threads :
       (exists i, m_code m i <> []) -> exists m', mstep k m m'.
 Proof. exact lock_discipline_no_deadlock. Qed.
 Print Assumptions c13_every_call_returns_threads.
+
+(* ---------------------------------------------------------------------- *)
+(* Overlapping calls ("from any number of threads").  digest() runs its
+   digesters outside the lock, so between two digester calls of one digest
+   pass any other call can run - also further digest passes, on any number of
+   threads.  [crun cfg ops] is the state after the interleaved history [ops]
+   over  Atomic o | PassBegin p k | PassStep p  (Model.v, Part 1b): [ops] is
+   arbitrary, so these hold at every point of every interleaving at
+   digester-call granularity; [inflight cs] are the items some digest call in
+   progress has taken off the queue and not yet handed to a digester. *)
+
+(* Conservation with calls in progress: every ingested item is exactly one
+   of queued, taken by a digest call in progress, or fated (one fate only),
+   and the counters are the ghost counts. *)
+Theorem c13_overlap_conservation :
+  forall cfg ops,
+    let cs := crun cfg ops in
+    let s := c_base cs in
+    Permutation (g_all s) (queue s ++ inflight cs ++ map fst (g_fates s)) /\
+    NoDup (ids (queue s) ++ ids (inflight cs) ++ ids (map fst (g_fates s))) /\
+    (forall it f it' f', In (it, f) (g_fates s) -> In (it', f') (g_fates s) ->
+                         it_id it = it_id it' -> it = it' /\ f = f') /\
+    n_ingested s = Z.of_nat (List.length (g_all s)) /\
+    n_digested s = nfate Digested s + nfate EmergOk s /\
+    n_ingested s = Z.of_nat (List.length (queue s)) + Z.of_nat (List.length (inflight cs))
+                   + n_digested s + nfate Reported s
+                   + nfate AutoDiscarded s + nfate EmergFail s + nfate Expired s.
+Proof. exact overlap_conservation_proof. Qed.
+Print Assumptions c13_overlap_conservation.
+
+(* "Reported as a digestion error", exactly once: the ids listed in the
+   `errors` of all DigestResults (returned, or being built by a call in
+   progress) are, with multiplicity, the ids of the items with fate Reported;
+   no id is listed twice - neither within one result nor in two results. *)
+Theorem c13_overlap_reported_exactly_once :
+  forall cfg ops,
+    let cs := crun cfg ops in
+    Permutation (reported_ids cs) (ids (with_fate Reported (c_base cs))) /\
+    NoDup (reported_ids cs) /\
+    (forall i, (count_occ Z.eq_dec (reported_ids cs) i =
+                if in_dec Z.eq_dec i (ids (with_fate Reported (c_base cs))) then 1 else 0)%nat).
+Proof. exact reported_once_proof. Qed.
+Print Assumptions c13_overlap_reported_exactly_once.
+
+(* Every returned DigestResult accounts for exactly the items its own call
+   took off the queue, whatever ran in between: `disposed` counts the ones
+   whose digester returned, `errors` lists the others in order, and each of
+   these items has the corresponding fate.  A call in progress has done so
+   for the items it has processed, and still has work. *)
+Theorem c13_overlap_result_accounts_for_its_items :
+  forall cfg ops,
+    let cs := crun cfg ops in
+    (forall taken r, In (taken, r) (c_done cs) ->
+       accounts cfg taken r /\
+       forall it, In it taken -> In (it, pass_fate cfg it) (g_fates (c_base cs))) /\
+    (forall ps, In ps (c_open cs) ->
+       p_todo ps <> [] /\
+       exists pre, p_taken ps = pre ++ p_todo ps /\ accounts cfg pre (p_res ps) /\
+         forall it, In it pre -> In (it, pass_fate cfg it) (g_fates (c_base cs))).
+Proof. exact results_proof. Qed.
+Print Assumptions c13_overlap_result_accounts_for_its_items.
+
+(* Sensitive items under overlap: nothing in the recycling bin - nor in the
+   `recycled` of a call in progress - comes from a sensitive item; on_toxic at
+   most once per id, only for ingested sensitive items, never for an item
+   that is queued or still in flight, exactly once for a fated (non-expired)
+   sensitive item. *)
+Theorem c13_overlap_toxic :
+  forall cfg ops,
+    let cs := crun cfg ops in
+    let s := c_base cs in
+    (forall k v it, In (k, v) (bin s) -> In it (g_all s) -> it_id it = v -> it_type it <> Toxic) /\
+    (forall ps k v it, In ps (c_open cs) -> In (k, v) (d_recycled (p_res ps)) ->
+                       In it (g_all s) -> it_id it = v -> it_type it <> Toxic) /\
+    (forall i, (count_occ Z.eq_dec (toxlog s) i <= 1)%nat) /\
+    (forall i, In i (toxlog s) ->
+       has_cb cfg = true /\ exists it, In it (g_all s) /\ it_id it = i /\ it_type it = Toxic) /\
+    (forall it, In it (queue s ++ inflight cs) -> ~ In (it_id it) (toxlog s)) /\
+    (forall it f, In (it, f) (g_fates s) -> it_type it = Toxic -> has_cb cfg = true ->
+       count_occ Z.eq_dec (toxlog s) (it_id it) = if fate_eqb f Expired then 0%nat else 1%nat).
+Proof. exact overlap_toxic_proof. Qed.
+Print Assumptions c13_overlap_toxic.
+
+(* The queue bound does not depend on calls being atomic. *)
+Theorem c13_overlap_queue_bounded :
+  forall cfg ops, 2 <= max_queue cfg ->
+    Z.of_nat (List.length (queue (c_base (crun cfg ops)))) <= max_queue cfg.
+Proof. exact overlap_queue_bounded_proof. Qed.
+Print Assumptions c13_overlap_queue_bounded.
+
+(* The interleaved semantics refines the sequential one: a history of atomic
+   calls is [run]; and one digest pass stepped through all its items with
+   nothing in between is digest() - same state, same DigestResult. *)
+Theorem c13_overlap_refines_sequential :
+  (forall cfg ops,
+     c_base (crun cfg (map Atomic ops)) = run cfg ops /\ c_open (crun cfg (map Atomic ops)) = []) /\
+  (forall cfg p k cs, find_pass p (c_open cs) = None ->
+     crun_from cfg cs (PassBegin p k :: repeat (PassStep p) (List.length (to_process k (queue (c_base cs))))) =
+     mkC (fst (digest cfg false k (c_base cs))) (c_open cs)
+         ((to_process k (queue (c_base cs)), snd (digest cfg false k (c_base cs))) :: c_done cs)).
+Proof. exact (conj atomic_run pass_uninterleaved). Qed.
+Print Assumptions c13_overlap_refines_sequential.
+
+(* Every step of the interleaved model yields a state and an outcome. *)
+Theorem c13_every_call_returns_overlapping :
+  forall cfg cs o, exists cs' r, cstep cfg cs o = (cs', r).
+Proof. exact cstep_total. Qed.
+Print Assumptions c13_every_call_returns_overlapping.
